@@ -30,11 +30,11 @@ package proxy
 //@   props C15
 //@   loop 0 invariant hset.n - old(hset.n) == mapnext.n - old(mapnext.n) && hdel.n == old(hdel.n) + 3
 //@   ensures hdel.n >= old(hdel.n) + 3 && hdel.arg1[old(hdel.n)] == "X-Forwarded-Method" && hdel.arg1[old(hdel.n) + 1] == "X-Forwarded-Uri" && hdel.arg1[old(hdel.n) + 2] == "X-Forwarded-Path"
-//@   assert at call Del#1: callarg0 == proxyReq.Out.Header && proxyReq.Out.URL == *targetURL
-//@   assert at call Del#2: callarg0 == proxyReq.Out.Header
-//@   assert at call Del#3: callarg0 == proxyReq.Out.Header
-//@   assert at call Set#1: callarg0 == proxyReq.Out.Header
-//@   assert at call Set#1: mapnext.n > old(mapnext.n) && iface(callarg1) == mapnext.arg0[mapnext.n - 1]
-//@   assert at call Set#1: callarg2 == headerGet((*r).RequestContext.upstreamHeaders, callarg1, hver)
-//@   assert at call Set#2: callarg0 == proxyReq.Out.Header && callarg1 == "X-Forwarded-For" && hasSuffix(callarg2, peerIP((*r).req.RemoteAddr))
-//@   assert at call Set#5: callarg0 == proxyReq.Out.Header && callarg1 == "Forwarded"
+//@   assert at call Del#1@1a63ac6f.1: callarg0 == proxyReq.Out.Header && proxyReq.Out.URL == *targetURL
+//@   assert at call Del#2@0a79ddb2.1: callarg0 == proxyReq.Out.Header
+//@   assert at call Del#3@6ce5a8e5.1: callarg0 == proxyReq.Out.Header
+//@   assert at call Set#1@a0038cd9.1: callarg0 == proxyReq.Out.Header
+//@   assert at call Set#1@a0038cd9.1: mapnext.n > old(mapnext.n) && iface(callarg1) == mapnext.arg0[mapnext.n - 1]
+//@   assert at call Set#1@a0038cd9.1: callarg2 == headerGet((*r).RequestContext.upstreamHeaders, callarg1, hver)
+//@   assert at call Set#2@6eebc2d8.1: callarg0 == proxyReq.Out.Header && callarg1 == "X-Forwarded-For" && hasSuffix(callarg2, peerIP((*r).req.RemoteAddr))
+//@   assert at call Set#5@eef33a36.1: callarg0 == proxyReq.Out.Header && callarg1 == "Forwarded"
